@@ -201,7 +201,8 @@ def render_case(case, uid, macroset=None):
         stmt_off = None
     elif head == "afterescchar":
         # a quote character written as an escape, then a comment that itself contains a quote and macro-like text
-        body = "    let _c%d = '\\\"'; // it said \"stop\" then " % uid + call + ";"
+        # (ONE quote: a reader that takes '\"' for the start of a string ends that string at the quote in the comment)
+        body = "    let _c%d = '\\\"'; // the \" character, formerly " % uid + call + ";"
         stmt_off = None
     elif head == "nolit_outer":
         # a configured name without a literal message, as an argument of another macro whose own arguments go on with `; "text"`
